@@ -83,12 +83,17 @@ class NumericArray(list):
     if len(self) == 0:
       raise gfapy.ValueError("NumericArray shall not be empty")
     if all([ isinstance(f, float) for f in self]):
+      for f in self:
+        if f != f or f in [float("inf"), float("-inf")]:
+          raise gfapy.ValueError(
+            "NumericArray contains a value which cannot be represented "+
+            "as a GFA float\nContent: {}".format(repr(self)))
       return "f"
     else:
       e_max = None
       e_min = None
       for e in self:
-        if not isinstance(e, int):
+        if not isinstance(e, int) or isinstance(e, bool):
           raise gfapy.ValueError(
             "NumericArray does not contain homogenous numeric values\n"+
             "Content: {}".format(repr(self)))
